@@ -339,6 +339,7 @@ def run(ctx: Ctx) -> None:
         _queue_faults(ctx, drv, mon)
         _overlapping_queue_pages(ctx, mon)
         _slow_broker_queue_page(ctx, mon)
+        _get_overlapped_by_a_purge(ctx, mon)
         _post_sensitivity(ctx, mon, post_routes, static)
         _fresh_monitor(ctx, mon, get_routes)
     finally:
@@ -833,6 +834,100 @@ def _overlapping_queue_pages(ctx: Ctx, mon: Monitor) -> None:
                            f"[{kind}] two GET /broker/queue?limit={limit} requests served at the same time on {nmsg} queued messages (HTTP {[r.status_code for r in resps]}) changed the monitored system: "
                            + "; ".join(d[:3]), {"kind": kind, "family": "overlapping-queue-pages", "messages": nmsg, "limit": limit})
     ctx.notes["overlapping_queue_pages"] = n
+
+
+def _get_overlapped_by_a_purge(ctx: Ctx, mon: Monitor) -> None:
+    """a page is being served while an operator purges the state backend (the monitor's own purge button, another process).  The
+    request is paused right after the k-th read it makes of the state backend, the purge runs, the system is read out, the request
+    is resumed and ends, the system is read out again: the REST of the request only observes as well - nothing the purge removed
+    comes back, nothing else moves."""
+    import threading
+
+    n = 0
+    for kind in ("mem", "sqlite"):
+        def world():  # type: ignore[no-untyped-def]
+            w = P.World(kind, ctx.tmp, tag="gp")
+            for op in (["heartbeat", ["rA"], True], ["call", "add", [1, 2]], ["call", "add", [3, 4]], ["claim", "rA", 2],
+                       ["status", 0, "RUNNING", "rA"], ["finish", 0, "rA", 3], ["child", 1, "add", [5]]):
+                w.apply(op)
+            return w
+
+        for url in ("/invocations/{i}", "/invocations/{i}/api", "/invocations/{i}/family-tree", "/invocations/", "/"):
+            k = 0
+            while True:
+                k += 1
+                if k > (3 if ctx.quick else 12):
+                    break
+                w = world()
+                mon.point_at(w.app)
+                url_w = url.format(i=w.inv[0])
+                sb = w.app.state_backend
+                me: dict = {"calls": 0, "paused": threading.Event(), "go": threading.Event(), "main": threading.current_thread()}
+                wrapped = []
+                for name in dir(sb):
+                    if (name.startswith("get") or name.startswith("_get")) and callable(getattr(sb, name, None)) and not isinstance(getattr(type(sb), name, None), property):
+                        orig = getattr(sb, name)
+
+                        def wrap(*a, _orig=orig, **kw):  # type: ignore[no-untyped-def]
+                            r = _orig(*a, **kw)
+                            if threading.current_thread() is not me["main"]:      # the handler runs in a thread of the ASGI portal / pool
+                                me["calls"] += 1
+                                if me["calls"] == k:
+                                    me["paused"].set()
+                                    me["go"].wait(20)
+                            return r
+
+                        try:
+                            setattr(sb, name, wrap)
+                            wrapped.append(name)
+                        except Exception:  # noqa: BLE001
+                            pass
+                res: dict = {}
+
+                def request() -> None:
+                    try:
+                        res["r"], res["name"] = mon.get(url_w)
+                    except BaseException as e:  # noqa: BLE001
+                        res["err"] = repr(e)
+
+                th = threading.Thread(target=request, daemon=True)
+                th.start()
+                t_end = __import__("time").time() + 10
+                while not me["paused"].is_set() and th.is_alive() and __import__("time").time() < t_end:
+                    me["paused"].wait(0.02)
+                reached = me["paused"].is_set()
+                if not reached:
+                    th.join(20)
+                    for name in wrapped:
+                        try:
+                            delattr(sb, name)
+                        except Exception:  # noqa: BLE001
+                            pass
+                    break          # the request makes fewer than k reads
+                try:
+                    sb.purge()
+                    mid = P.readout(w, with_api=False)
+                finally:
+                    me["go"].set()
+                    th.join(30)
+                try:
+                    after = P.readout(w, with_api=False)      # (both read-outs with the pause wrappers still in place)
+                finally:
+                    for name in wrapped:
+                        try:
+                            delattr(sb, name)
+                        except Exception:  # noqa: BLE001
+                            pass
+                n += 1
+                ctx.count()
+                ctx.distinct((kind, "get-overlapped-by-purge", url.split("/")[-1] or url, k))
+                d = judge(mid, after)
+                if d:
+                    ctx.report(f"get-mutates:{res.get('name')}:overlapped-by-state-backend-purge",
+                               f"[{kind}] GET {url_w.replace(w.inv[0], '<id>')} is paused after its read #{k} of the state backend, the state backend is purged, the request resumes "
+                               f"(HTTP {getattr(res.get('r'), 'status_code', res.get('err'))}): what the purge had removed is back / the system moved: " + "; ".join(d[:3]),
+                               {"kind": kind, "family": "get-overlapped-by-purge", "url": url_w, "read": k})
+    ctx.notes["gets_overlapped_by_a_purge"] = n
 
 
 def _slow_broker_queue_page(ctx: Ctx, mon: Monitor) -> None:
